@@ -1,0 +1,5 @@
+// Package verifhook holds the shared state of the verification hooks that are
+// compiled into resgate with the build tag "verif": schedule perturbation,
+// coverage counters, notes and the global activity counter. Without the tag
+// the package is empty and nothing imports it.
+package verifhook
